@@ -1,0 +1,13 @@
+//go:build verif
+
+package mocrelay
+
+// VerifRouterRegistrySize reports how many connections and subscriptions the
+// router currently holds (verification harness only, build tag verif).
+func VerifRouterRegistrySize(router *RouterHandler) (conns, subs int) {
+	router.subs.subs.Loop(func(_ string, m *safeMap[string, *subscriber]) {
+		conns++
+		m.Loop(func(_ string, _ *subscriber) { subs++ })
+	})
+	return
+}
